@@ -723,4 +723,25 @@ theorem helperView_spec {x : Ev} {hv : Helper} (h : helperView x = some hv) :
   · cases h
 
 
+/-- the queue of helper events that `flow_prepare_event_data` + `insert` build from a list of slices
+(all of them, in arrival order; `[]` if a stage raises) -/
+def helperQueue (input : List Ev) : List Q :=
+  match prepareAll input with
+  | .ok a => a.filterMap (fun e => if phInF e.ph then (match toQ e with | .ok q => some q | .error _ => none) else none)
+  | .error _ => []
+
+def okOf {α : Type} : Except Err α → Option α
+  | .ok a => some a
+  | .error _ => none
+
+def errOf {α : Type} : Except Err α → Option Err
+  | .ok _ => none
+  | .error e => some e
+
+/-- names of the `s` events of a run (`none`: the run raised) -/
+def sNames (r : Except Err (List Ev)) : Option (List String) :=
+  match r with
+  | .ok out => some ((out.filter (fun e => e.ph = "s")).map (·.name))
+  | .error _ => none
+
 end AiuVerif.Flow
